@@ -81,7 +81,7 @@ func drawType(t *core.Tape, minAttrs int) *world.TypeSpec {
 		style = world.NamesExotic
 	}
 
-	s := world.DrawSchema(t, world.SchemaOptions{MinTypes: 1, MaxTypes: 2, MinAttrs: minAttrs, MaxAttrs: 10, MaxRels: 4, Names: style, ForceStruct: 1, TwoWay: true})
+	s := world.DrawSchema(t, world.SchemaOptions{MinTypes: 1, MaxTypes: 2, MinAttrs: minAttrs, MaxAttrs: 10, MaxRels: 4, Names: style, ForceStruct: 1, TwoWay: true, TagOptions: true})
 
 	return s.Types[0]
 }
@@ -300,6 +300,10 @@ func runC17(t *core.Tape, st *core.Stats) *core.Violation {
 		return v
 	}
 
+	if v := freshFromUsedTypes(t, st, ts, softT, twins); v != nil {
+		return v
+	}
+
 	// Equality helpers on pairs derived from the history.
 	npairs, v := equalityLaws(t, st, ts, model, twins)
 	if v != nil {
@@ -308,6 +312,69 @@ func runC17(t *core.Tape, st *core.Stats) *core.Violation {
 
 	if nset >= 3 && npairs >= 1 {
 		st.MarkNonTrivial()
+	}
+
+	return nil
+}
+
+// freshFromUsedTypes: "a freshly created resource of a type has that type's
+// name, fields and all zero values" also holds for types that have been used:
+// the type a resource with a history reports (GetType), and a type derived from
+// one that has already made resources (Copy, another name, one more attribute).
+func freshFromUsedTypes(t *core.Tape, st *core.Stats, ts *world.TypeSpec, softT jsonapi.Type, twins []twin) *core.Violation {
+	const P = "C17"
+
+	blank := world.NewResSpec(ts).ExpectedObservation(false)
+
+	for _, tw := range twins {
+		var got string
+
+		if p := core.Call(func() {
+			typ := tw.res.GetType()
+			got = world.Observe(typ.New()).String(false)
+		}); p != nil {
+			return viol(P, "no-panic", p.Func, "new-from-used-type:"+p.Class, "GetType().New() on the %s resource panicked: %s", tw.name, p.Value)
+		}
+
+		st.Inc("probe:new-from-the-type-of-a-used-resource")
+
+		if got != blank {
+			return viol(P, "fresh-resource", tw.name, "new-from-type-of-used-resource", "a resource made by the type the %s resource reports is not a blank resource of that type\n    want: %s\n    got:  %s", tw.name, blank, got)
+		}
+	}
+
+	// derived soft type
+	dts := cloneType(ts)
+	dts.Struct = false
+	dts.Name = ts.Name + "-derived"
+	extra := world.AttrSpec{Name: freshName(ts, "extra"), Kind: t.Range(1, 14), Nullable: t.Bool(1, 2)}
+	dts.Attrs = append(dts.Attrs, extra)
+
+	var (
+		got  string
+		aerr error
+	)
+
+	if p := core.Call(func() {
+		d := softT.Copy()
+		d.Name = dts.Name
+		aerr = d.AddAttr(jsonapi.Attr{Name: extra.Name, Type: extra.Kind, Nullable: extra.Nullable})
+
+		if aerr == nil {
+			got = world.Observe(d.New()).String(false)
+		}
+	}); p != nil {
+		return viol(P, "no-panic", p.Func, "new-from-derived-type:"+p.Class, "New() of a type derived from a used type panicked: %s", p.Value)
+	}
+
+	if aerr != nil {
+		return nil
+	}
+
+	st.Inc("probe:new-from-a-type-derived-from-a-used-type")
+
+	if want := world.NewResSpec(dts).ExpectedObservation(false); got != want {
+		return viol(P, "fresh-resource", "soft", "new-from-derived-type", "a resource made by a type derived (Copy, renamed, one attribute added) from a type that has already made resources is not a blank resource of the derived type\n    want: %s\n    got:  %s", want, got)
 	}
 
 	return nil
